@@ -73,6 +73,9 @@ type Row struct {
 	Vals []Value
 	xmin uint64 // creating transaction; 0 once committed
 	xmax uint64 // deleting transaction in progress; 0 = none
+	// insSeq / delSeq: the commit that made the row visible / removed it. A removed row is kept (delSeq != 0) only
+	// while a transaction with a snapshot (REPEATABLE READ) is open; nobody else sees it.
+	insSeq, delSeq uint64
 }
 
 type Table struct {
@@ -125,6 +128,11 @@ type Tx struct {
 	Effects  []Effect
 	Stmts    []string // texts of the statements executed in it
 	Notifies []Notify
+	// Snapshot: the session asked for REPEATABLE READ (or SERIALIZABLE): the transaction sees the state committed
+	// when its first statement ran (snap), plus its own changes.
+	Snapshot bool
+	snapSet  bool
+	snap     uint64
 	// Pair is (src_name, ig_name) taken from the parameters of the task_updates
 	// statements of this transaction (the pair the transaction is acting for).
 	PairSrc, PairIG string
@@ -247,6 +255,16 @@ func (s *Server) visible(r *Row, tx *Tx) bool {
 	if r.xmin != 0 && (tx == nil || r.xmin != tx.ID) {
 		return false // created by another in-progress transaction
 	}
+	if tx != nil && tx.Snapshot && tx.snapSet {
+		if r.xmin == 0 && r.insSeq > tx.snap {
+			return false // committed after the snapshot
+		}
+		if r.delSeq != 0 && r.delSeq <= tx.snap {
+			return false // removed before the snapshot
+		}
+	} else if r.delSeq != 0 {
+		return false // removed; kept only for open snapshots
+	}
 	if r.xmax != 0 && tx != nil && r.xmax == tx.ID {
 		return false // deleted by this transaction
 	}
@@ -272,6 +290,9 @@ func (s *Server) checkUnique(t *Table, vals []Value, tx *Tx) *PGError {
 		for _, r := range t.Rows {
 			if r.xmax != 0 && r.xmax == tx.ID {
 				continue // deleted by us
+			}
+			if r.delSeq != 0 {
+				continue // removed by a committed transaction
 			}
 			same := true
 			for _, ci := range ix.Cols {
@@ -304,6 +325,9 @@ func (s *Server) insertRow(t *Table, vals []Value, tx *Tx) *PGError {
 }
 
 func (s *Server) deleteRow(t *Table, r *Row, tx *Tx) *PGError {
+	if r.delSeq != 0 {
+		return pgErr("40001", "could not serialize access due to concurrent update")
+	}
 	if r.xmax != 0 && r.xmax != tx.ID {
 		return pgErr("40001", "verif: row of %s is being deleted by a concurrent transaction (real PostgreSQL would block here)", t.QName())
 	}
@@ -317,14 +341,23 @@ func (s *Server) commitTx(tx *Tx) {
 	for _, e := range tx.Effects {
 		touched[e.Table] = true
 	}
+	if tx.Snapshot {
+		s.snapshotTxs--
+	}
 	for t := range touched {
 		rows := t.Rows[:0:0]
 		for _, r := range t.Rows {
 			if r.xmax == tx.ID {
-				continue // delete becomes permanent
+				if s.snapshotTxs == 0 {
+					continue // delete becomes permanent
+				}
+				r.xmax, r.delSeq = 0, s.commitSeq+1 // an open snapshot may still see it
+			}
+			if r.delSeq != 0 && s.snapshotTxs == 0 {
+				continue
 			}
 			if r.xmin == tx.ID {
-				r.xmin = 0
+				r.xmin, r.insSeq = 0, s.commitSeq+1
 			}
 			rows = append(rows, r)
 		}
@@ -341,6 +374,9 @@ func (s *Server) commitTx(tx *Tx) {
 }
 
 func (s *Server) abortTx(tx *Tx, reason string) {
+	if tx.Snapshot {
+		s.snapshotTxs--
+	}
 	touched := map[*Table]bool{}
 	for _, e := range tx.Effects {
 		touched[e.Table] = true
@@ -373,7 +409,7 @@ func (s *Server) CommittedRows(qname string) []*Row {
 	}
 	var rows []*Row
 	for _, r := range t.Rows {
-		if r.xmin == 0 {
+		if r.xmin == 0 && r.delSeq == 0 {
 			rows = append(rows, r)
 		}
 	}
@@ -417,7 +453,7 @@ func (s *Server) snapshotLocked() *Snapshot {
 			ct.Indexes = append(ct.Indexes, &Index{Name: ix.Name, Unique: ix.Unique, Cols: append([]int(nil), ix.Cols...)})
 		}
 		for _, r := range t.Rows {
-			if r.xmin == 0 {
+			if r.xmin == 0 && r.delSeq == 0 {
 				ct.Rows = append(ct.Rows, &Row{ID: r.ID, Vals: r.Vals})
 			}
 		}
